@@ -99,3 +99,918 @@ Check C15_creation_guards :
            mwritable m7 = true /\
            rd_acct W (mkey m7) (DJournal j) /\ mkey m8 = KTok2z (mkey m7) /\ mkey m9 = KAta (mkey m7) KMint.
 Print Assumptions C15_creation_guards.
+
+From DZ Require Import Lemmas_Hist Lemmas_C15 Lemmas_C15b Lemmas_C15c.
+
+(* the exact effect of a successful creation: snapshot of epoch, fees, relay fee, burn rate and earliest calculation time; config counters; the 2Z waiting in the journal's ATA moved in full and recorded as collected; frame *)
+Theorem C15_creation_spec :
+  forall (cx : World.ctx) (W W' : World.world),
+         RD.rd_initialize_distribution cx W = Base.Ok W' ->
+         exists
+           (m0 m1 m2 m3 m4 m5 m6 m7 m8 m9 : World.meta) (rest : list World.meta) 
+         (c : State.rd_config) (rate : BinNums.N) (burn' : BurnRate.params),
+           World.cx_metas cx = (m0 :: m1 :: m2 :: m3 :: m4 :: m5 :: m6 :: m7 :: m8 :: m9 :: rest)%list /\
+           init_dist_facts W W' (World.mkey m0) c rate burn' (World.mkey m2) (World.mkey m7).
+Proof. exact rd_initialize_distribution_spec. Qed.
+Check C15_creation_spec :
+  forall (cx : World.ctx) (W W' : World.world),
+         RD.rd_initialize_distribution cx W = Base.Ok W' ->
+         exists
+           (m0 m1 m2 m3 m4 m5 m6 m7 m8 m9 : World.meta) (rest : list World.meta) 
+         (c : State.rd_config) (rate : BinNums.N) (burn' : BurnRate.params),
+           World.cx_metas cx = (m0 :: m1 :: m2 :: m3 :: m4 :: m5 :: m6 :: m7 :: m8 :: m9 :: rest)%list /\
+           init_dist_facts W W' (World.mkey m0) c rate burn' (World.mkey m2) (World.mkey m7).
+Print Assumptions C15_creation_spec.
+
+Theorem C15_new_dist_fields :
+  forall (c : State.rd_config) (nw rate amt : BinNums.N),
+         let d := new_dist c nw rate amt in
+         State.d_epoch d = State.c_next_epoch c /\
+         State.d_fees d = State.c_fees c /\
+         State.d_relay d = State.c_relay c /\
+         State.d_cbr d = rate /\
+         State.d_calc_allowed_ts d =
+         BinNat.N.add nw
+           (BinNat.N.mul (State.c_calc_grace_min c)
+              (BinNums.Npos (BinNums.xO (BinNums.xO (BinNums.xI (BinNums.xI (BinNums.xI BinNums.xH))))))) /\
+         State.d_debt_final d = false /\
+         State.d_rewards_final d = false /\
+         State.d_swept d = false /\
+         State.d_writeoff_enabled d = false /\
+         State.d_prepaid_2z d = amt /\
+         d =
+         RecordSet.set State.d_prepaid_2z (fun _ : BinNums.N => State.d_prepaid_2z d)
+           (RecordSet.set State.d_calc_allowed_ts (fun _ : BinNums.N => State.d_calc_allowed_ts d)
+              (RecordSet.set State.d_cbr (fun _ : BinNums.N => State.d_cbr d)
+                 (RecordSet.set State.d_relay (fun _ : BinNums.N => State.d_relay d)
+                    (RecordSet.set State.d_fees (fun _ : State.fee_params => State.d_fees d)
+                       (RecordSet.set State.d_epoch (fun _ : BinNums.N => State.d_epoch d) State.dist_default))))).
+Proof. exact new_dist_fields. Qed.
+Check C15_new_dist_fields :
+  forall (c : State.rd_config) (nw rate amt : BinNums.N),
+         let d := new_dist c nw rate amt in
+         State.d_epoch d = State.c_next_epoch c /\
+         State.d_fees d = State.c_fees c /\
+         State.d_relay d = State.c_relay c /\
+         State.d_cbr d = rate /\
+         State.d_calc_allowed_ts d =
+         BinNat.N.add nw
+           (BinNat.N.mul (State.c_calc_grace_min c)
+              (BinNums.Npos (BinNums.xO (BinNums.xO (BinNums.xI (BinNums.xI (BinNums.xI BinNums.xH))))))) /\
+         State.d_debt_final d = false /\
+         State.d_rewards_final d = false /\
+         State.d_swept d = false /\
+         State.d_writeoff_enabled d = false /\
+         State.d_prepaid_2z d = amt /\
+         d =
+         RecordSet.set State.d_prepaid_2z (fun _ : BinNums.N => State.d_prepaid_2z d)
+           (RecordSet.set State.d_calc_allowed_ts (fun _ : BinNums.N => State.d_calc_allowed_ts d)
+              (RecordSet.set State.d_cbr (fun _ : BinNums.N => State.d_cbr d)
+                 (RecordSet.set State.d_relay (fun _ : BinNums.N => State.d_relay d)
+                    (RecordSet.set State.d_fees (fun _ : State.fee_params => State.d_fees d)
+                       (RecordSet.set State.d_epoch (fun _ : BinNums.N => State.d_epoch d) State.dist_default))))).
+Print Assumptions C15_new_dist_fields.
+
+Theorem C15_new_config_fields :
+  forall (c : State.rd_config) (nw : BinNums.N) (burn' : BurnRate.params),
+         let c' := new_config c nw burn' in
+         State.c_last_init_ts c' = nw /\
+         State.c_burn c' = burn' /\
+         State.c_next_epoch c' = Base.sat_add Base.two64 (State.c_next_epoch c) (BinNums.Npos BinNums.xH) /\
+         c' =
+         RecordSet.set State.c_next_epoch (fun _ : BinNums.N => State.c_next_epoch c')
+           (RecordSet.set State.c_burn (fun _ : BurnRate.params => State.c_burn c')
+              (RecordSet.set State.c_last_init_ts (fun _ : BinNums.N => State.c_last_init_ts c') c)).
+Proof. exact new_config_fields. Qed.
+Check C15_new_config_fields :
+  forall (c : State.rd_config) (nw : BinNums.N) (burn' : BurnRate.params),
+         let c' := new_config c nw burn' in
+         State.c_last_init_ts c' = nw /\
+         State.c_burn c' = burn' /\
+         State.c_next_epoch c' = Base.sat_add Base.two64 (State.c_next_epoch c) (BinNums.Npos BinNums.xH) /\
+         c' =
+         RecordSet.set State.c_next_epoch (fun _ : BinNums.N => State.c_next_epoch c')
+           (RecordSet.set State.c_burn (fun _ : BurnRate.params => State.c_burn c')
+              (RecordSet.set State.c_last_init_ts (fun _ : BinNums.N => State.c_last_init_ts c') c)).
+Print Assumptions C15_new_config_fields.
+
+Theorem C15_creation_creates_dist :
+  forall (cx : World.ctx) (W W' : World.world),
+         RD.rd_initialize_distribution cx W = Base.Ok W' ->
+         exists
+           (m0 m1 m2 m3 m4 m5 m6 m7 m8 m9 : World.meta) (rest : list World.meta) 
+         (c : State.rd_config) (rate : BinNums.N) (burn' : BurnRate.params),
+           World.cx_metas cx = (m0 :: m1 :: m2 :: m3 :: m4 :: m5 :: m6 :: m7 :: m8 :: m9 :: rest)%list /\
+           Lemmas_RdGuards.rd_acct W (World.mkey m0) (State.DConfig c) /\
+           BurnRate.br_compute (State.c_burn c) = Some (rate, burn') /\
+           Lemmas_Inv.dist_at W (Keys.KRdDist (State.c_next_epoch c)) = None /\
+           Lemmas_Inv.dist_at W' (Keys.KRdDist (State.c_next_epoch c)) =
+           Some (new_dist c (World.now W) rate (tok_amount W (Keys.KAta (World.mkey m7) Keys.KMint)), nil) /\
+           Lemmas_RdGuards.rd_acct W' (World.mkey m0) (State.DConfig (new_config c (World.now W) burn')).
+Proof. exact rd_initialize_distribution_creates_dist. Qed.
+Check C15_creation_creates_dist :
+  forall (cx : World.ctx) (W W' : World.world),
+         RD.rd_initialize_distribution cx W = Base.Ok W' ->
+         exists
+           (m0 m1 m2 m3 m4 m5 m6 m7 m8 m9 : World.meta) (rest : list World.meta) 
+         (c : State.rd_config) (rate : BinNums.N) (burn' : BurnRate.params),
+           World.cx_metas cx = (m0 :: m1 :: m2 :: m3 :: m4 :: m5 :: m6 :: m7 :: m8 :: m9 :: rest)%list /\
+           Lemmas_RdGuards.rd_acct W (World.mkey m0) (State.DConfig c) /\
+           BurnRate.br_compute (State.c_burn c) = Some (rate, burn') /\
+           Lemmas_Inv.dist_at W (Keys.KRdDist (State.c_next_epoch c)) = None /\
+           Lemmas_Inv.dist_at W' (Keys.KRdDist (State.c_next_epoch c)) =
+           Some (new_dist c (World.now W) rate (tok_amount W (Keys.KAta (World.mkey m7) Keys.KMint)), nil) /\
+           Lemmas_RdGuards.rd_acct W' (World.mkey m0) (State.DConfig (new_config c (World.now W) burn')).
+Print Assumptions C15_creation_creates_dist.
+
+Theorem C15_epochs_below_next_inv :
+  forall W : World.world, Inv15 W -> Inv_C15 W.
+Proof. exact Inv15_C15. Qed.
+Check C15_epochs_below_next_inv :
+  forall W : World.world, Inv15 W -> Inv_C15 W.
+Print Assumptions C15_epochs_below_next_inv.
+
+Theorem C15_epochs_below_next :
+  forall (W : World.world) (dk ck : Keys.key) (d : State.dist) (t : list BinNums.N)
+           (c : State.rd_config),
+         Inv_C15 W ->
+         State.owner (World.get W dk) = Keys.KRd ->
+         State.data (World.get W dk) = State.DDist d t ->
+         State.owner (World.get W ck) = Keys.KRd ->
+         State.data (World.get W ck) = State.DConfig c ->
+         BinNat.N.lt (State.c_next_epoch c) Base.u64_max ->
+         BinNat.N.lt (State.d_epoch d) (State.c_next_epoch c).
+Proof. exact epochs_below_next. Qed.
+Check C15_epochs_below_next :
+  forall (W : World.world) (dk ck : Keys.key) (d : State.dist) (t : list BinNums.N)
+           (c : State.rd_config),
+         Inv_C15 W ->
+         State.owner (World.get W dk) = Keys.KRd ->
+         State.data (World.get W dk) = State.DDist d t ->
+         State.owner (World.get W ck) = Keys.KRd ->
+         State.data (World.get W ck) = State.DConfig c ->
+         BinNat.N.lt (State.c_next_epoch c) Base.u64_max ->
+         BinNat.N.lt (State.d_epoch d) (State.c_next_epoch c).
+Print Assumptions C15_epochs_below_next.
+
+Theorem C15_config_only_at_its_address :
+  forall (W : World.world) (k : Keys.key) (c : State.rd_config),
+         Inv15 W ->
+         State.owner (World.get W k) = Keys.KRd ->
+         State.data (World.get W k) = State.DConfig c -> k = Keys.KRdConfig.
+Proof. exact Inv15_config_key. Qed.
+Check C15_config_only_at_its_address :
+  forall (W : World.world) (k : Keys.key) (c : State.rd_config),
+         Inv15 W ->
+         State.owner (World.get W k) = Keys.KRd ->
+         State.data (World.get W k) = State.DConfig c -> k = Keys.KRdConfig.
+Print Assumptions C15_config_only_at_its_address.
+
+Theorem C15_dist_only_at_its_address :
+  forall (W : World.world) (k : Keys.key) (d : State.dist) (t : list BinNums.N),
+         Inv15 W ->
+         State.owner (World.get W k) = Keys.KRd ->
+         State.data (World.get W k) = State.DDist d t -> k = Keys.KRdDist (State.d_epoch d).
+Proof. exact Inv15_dist_key. Qed.
+Check C15_dist_only_at_its_address :
+  forall (W : World.world) (k : Keys.key) (d : State.dist) (t : list BinNums.N),
+         Inv15 W ->
+         State.owner (World.get W k) = Keys.KRd ->
+         State.data (World.get W k) = State.DDist d t -> k = Keys.KRdDist (State.d_epoch d).
+Print Assumptions C15_dist_only_at_its_address.
+
+(* exactly one distribution per epoch in every reachable state *)
+Theorem C15_one_distribution_per_epoch :
+  forall (W : World.world) (k1 : Keys.key) (d1 : State.dist) (t1 : list BinNums.N) 
+           (k2 : Keys.key) (d2 : State.dist) (t2 : list BinNums.N),
+         Inv15 W ->
+         State.owner (World.get W k1) = Keys.KRd ->
+         State.data (World.get W k1) = State.DDist d1 t1 ->
+         State.owner (World.get W k2) = Keys.KRd ->
+         State.data (World.get W k2) = State.DDist d2 t2 -> State.d_epoch d1 = State.d_epoch d2 -> k1 = k2.
+Proof. exact one_distribution_per_epoch. Qed.
+Check C15_one_distribution_per_epoch :
+  forall (W : World.world) (k1 : Keys.key) (d1 : State.dist) (t1 : list BinNums.N) 
+           (k2 : Keys.key) (d2 : State.dist) (t2 : list BinNums.N),
+         Inv15 W ->
+         State.owner (World.get W k1) = Keys.KRd ->
+         State.data (World.get W k1) = State.DDist d1 t1 ->
+         State.owner (World.get W k2) = Keys.KRd ->
+         State.data (World.get W k2) = State.DDist d2 t2 -> State.d_epoch d1 = State.d_epoch d2 -> k1 = k2.
+Print Assumptions C15_one_distribution_per_epoch.
+
+Theorem C15_next_epoch_not_created_yet :
+  forall (W : World.world) (ck : Keys.key) (c : State.rd_config) (k : Keys.key) 
+           (d : State.dist) (t : list BinNums.N),
+         Inv15 W ->
+         State.owner (World.get W ck) = Keys.KRd ->
+         State.data (World.get W ck) = State.DConfig c ->
+         BinNat.N.lt (State.c_next_epoch c) Base.u64_max ->
+         State.owner (World.get W k) = Keys.KRd ->
+         State.data (World.get W k) = State.DDist d t -> State.d_epoch d <> State.c_next_epoch c.
+Proof. exact next_epoch_not_created_yet. Qed.
+Check C15_next_epoch_not_created_yet :
+  forall (W : World.world) (ck : Keys.key) (c : State.rd_config) (k : Keys.key) 
+           (d : State.dist) (t : list BinNums.N),
+         Inv15 W ->
+         State.owner (World.get W ck) = Keys.KRd ->
+         State.data (World.get W ck) = State.DConfig c ->
+         BinNat.N.lt (State.c_next_epoch c) Base.u64_max ->
+         State.owner (World.get W k) = Keys.KRd ->
+         State.data (World.get W k) = State.DDist d t -> State.d_epoch d <> State.c_next_epoch c.
+Print Assumptions C15_next_epoch_not_created_yet.
+
+(* preserved by EVERY transaction of any program and signer *)
+Theorem C15_inv_tx :
+  forall (W : World.world) (t : Exec.tx) (W' : World.world) (ok : bool),
+         Inv15 W -> Exec.exec_tx W t = (W', ok) -> Inv15 W'.
+Proof. exact inv_C15_tx. Qed.
+Check C15_inv_tx :
+  forall (W : World.world) (t : Exec.tx) (W' : World.world) (ok : bool),
+         Inv15 W -> Exec.exec_tx W t = (W', ok) -> Inv15 W'.
+Print Assumptions C15_inv_tx.
+
+Theorem C15_inv_op :
+  forall (W : World.world) (o : Exec.op),
+         Lemmas_Canon.honest_op o ->
+         (forall p o_ : Keys.key, o = Exec.OCreateAta p o_ -> ~ tk (World.get W p)) ->
+         Inv15 W -> Inv15 (fst (Exec.exec_op W o)).
+Proof. exact inv_C15_op. Qed.
+Check C15_inv_op :
+  forall (W : World.world) (o : Exec.op),
+         Lemmas_Canon.honest_op o ->
+         (forall p o_ : Keys.key, o = Exec.OCreateAta p o_ -> ~ tk (World.get W p)) ->
+         Inv15 W -> Inv15 (fst (Exec.exec_op W o)).
+Print Assumptions C15_inv_op.
+
+Theorem C15_inv_history :
+  forall (ops : list Exec.op) (W : World.world),
+         List.Forall Lemmas_Canon.honest_op ops ->
+         List.Forall wallet_pays ops ->
+         Lemmas_Canon.typed_canonical W ->
+         Inv15 W ->
+         Inv15 (List.fold_left (fun (W0 : World.world) (o : Exec.op) => fst (Exec.exec_op W0 o)) ops W).
+Proof. exact inv_C15_history. Qed.
+Check C15_inv_history :
+  forall (ops : list Exec.op) (W : World.world),
+         List.Forall Lemmas_Canon.honest_op ops ->
+         List.Forall wallet_pays ops ->
+         Lemmas_Canon.typed_canonical W ->
+         Inv15 W ->
+         Inv15 (List.fold_left (fun (W0 : World.world) (o : Exec.op) => fst (Exec.exec_op W0 o)) ops W).
+Print Assumptions C15_inv_history.
+
+Theorem C15_inv_init :
+  Inv15 Exec.world0 /\
+         (forall W : World.world,
+          (forall k : Keys.key,
+           State.owner (World.get W k) = Keys.KRd -> State.data (World.get W k) = State.DEmpty) -> 
+          Inv15 W).
+Proof. exact inv_C15_init. Qed.
+Check C15_inv_init :
+  Inv15 Exec.world0 /\
+         (forall W : World.world,
+          (forall k : Keys.key,
+           State.owner (World.get W k) = Keys.KRd -> State.data (World.get W k) = State.DEmpty) -> 
+          Inv15 W).
+Print Assumptions C15_inv_init.
+
+Theorem C15_inv_reachable :
+  forall ops : list Exec.op,
+         List.Forall Lemmas_Canon.honest_op ops ->
+         List.Forall wallet_pays ops ->
+         Inv_C15
+           (List.fold_left (fun (W : World.world) (o : Exec.op) => fst (Exec.exec_op W o)) ops Exec.world0).
+Proof. exact C15_reachable. Qed.
+Check C15_inv_reachable :
+  forall ops : list Exec.op,
+         List.Forall Lemmas_Canon.honest_op ops ->
+         List.Forall wallet_pays ops ->
+         Inv_C15
+           (List.fold_left (fun (W : World.world) (o : Exec.op) => fst (Exec.exec_op W o)) ops Exec.world0).
+Print Assumptions C15_inv_reachable.
+
+Theorem C15_counter_step :
+  forall (cx : World.ctx) (W : World.world) (ix : RD.rd_ix) (W' : World.world) 
+           (k : Keys.key) (c : State.rd_config),
+         Inv15 W ->
+         RD.rd_process cx W ix = Base.Ok W' ->
+         State.owner (World.get W k) = Keys.KRd ->
+         State.data (World.get W k) = State.DConfig c ->
+         exists c' : State.rd_config,
+           State.owner (World.get W' Keys.KRdConfig) = Keys.KRd /\
+           State.data (World.get W' Keys.KRdConfig) = State.DConfig c' /\
+           State.c_next_epoch c' =
+           match ix with
+           | RD.RInitializeDistribution =>
+               Base.sat_add Base.two64 (State.c_next_epoch c) (BinNums.Npos BinNums.xH)
+           | _ => State.c_next_epoch c
+           end /\
+           State.c_last_init_ts c' =
+           match ix with
+           | RD.RInitializeDistribution => World.now W
+           | _ => State.c_last_init_ts c
+           end /\
+           match ix with
+           | RD.RInitializeDistribution =>
+               State.c_init_grace_min c <> BinNums.N0 /\
+               BinNat.N.le
+                 (BinNat.N.add (State.c_last_init_ts c)
+                    (BinNat.N.mul (State.c_init_grace_min c)
+                       (BinNums.Npos
+                          (BinNums.xO (BinNums.xO (BinNums.xI (BinNums.xI (BinNums.xI BinNums.xH))))))))
+                 (World.now W)
+           | _ => True
+           end.
+Proof. exact counter_step. Qed.
+Check C15_counter_step :
+  forall (cx : World.ctx) (W : World.world) (ix : RD.rd_ix) (W' : World.world) 
+           (k : Keys.key) (c : State.rd_config),
+         Inv15 W ->
+         RD.rd_process cx W ix = Base.Ok W' ->
+         State.owner (World.get W k) = Keys.KRd ->
+         State.data (World.get W k) = State.DConfig c ->
+         exists c' : State.rd_config,
+           State.owner (World.get W' Keys.KRdConfig) = Keys.KRd /\
+           State.data (World.get W' Keys.KRdConfig) = State.DConfig c' /\
+           State.c_next_epoch c' =
+           match ix with
+           | RD.RInitializeDistribution =>
+               Base.sat_add Base.two64 (State.c_next_epoch c) (BinNums.Npos BinNums.xH)
+           | _ => State.c_next_epoch c
+           end /\
+           State.c_last_init_ts c' =
+           match ix with
+           | RD.RInitializeDistribution => World.now W
+           | _ => State.c_last_init_ts c
+           end /\
+           match ix with
+           | RD.RInitializeDistribution =>
+               State.c_init_grace_min c <> BinNums.N0 /\
+               BinNat.N.le
+                 (BinNat.N.add (State.c_last_init_ts c)
+                    (BinNat.N.mul (State.c_init_grace_min c)
+                       (BinNums.Npos
+                          (BinNums.xO (BinNums.xO (BinNums.xI (BinNums.xI (BinNums.xI BinNums.xH))))))))
+                 (World.now W)
+           | _ => True
+           end.
+Print Assumptions C15_counter_step.
+
+Theorem C15_counter_monotone_tx :
+  forall (W : World.world) (t : Exec.tx) (W' : World.world) (ok : bool) (k : Keys.key)
+           (c : State.rd_config),
+         Inv15 W ->
+         Exec.exec_tx W t = (W', ok) ->
+         State.owner (World.get W k) = Keys.KRd ->
+         State.data (World.get W k) = State.DConfig c ->
+         exists c' : State.rd_config,
+           State.owner (World.get W' Keys.KRdConfig) = Keys.KRd /\
+           State.data (World.get W' Keys.KRdConfig) = State.DConfig c' /\
+           BinNat.N.le (State.c_next_epoch c) (State.c_next_epoch c').
+Proof. exact counter_monotone_tx. Qed.
+Check C15_counter_monotone_tx :
+  forall (W : World.world) (t : Exec.tx) (W' : World.world) (ok : bool) (k : Keys.key)
+           (c : State.rd_config),
+         Inv15 W ->
+         Exec.exec_tx W t = (W', ok) ->
+         State.owner (World.get W k) = Keys.KRd ->
+         State.data (World.get W k) = State.DConfig c ->
+         exists c' : State.rd_config,
+           State.owner (World.get W' Keys.KRdConfig) = Keys.KRd /\
+           State.data (World.get W' Keys.KRdConfig) = State.DConfig c' /\
+           BinNat.N.le (State.c_next_epoch c) (State.c_next_epoch c').
+Print Assumptions C15_counter_monotone_tx.
+
+Theorem C15_counter_monotone_history :
+  forall (ops : list Exec.op) (W : World.world) (k : Keys.key) (c : State.rd_config),
+         List.Forall Lemmas_Canon.honest_op ops ->
+         List.Forall wallet_pays ops ->
+         Lemmas_Canon.typed_canonical W ->
+         Inv15 W ->
+         State.owner (World.get W k) = Keys.KRd ->
+         State.data (World.get W k) = State.DConfig c ->
+         let W' := List.fold_left (fun (W0 : World.world) (o : Exec.op) => fst (Exec.exec_op W0 o)) ops W in
+         exists c' : State.rd_config,
+           State.owner (World.get W' Keys.KRdConfig) = Keys.KRd /\
+           State.data (World.get W' Keys.KRdConfig) = State.DConfig c' /\
+           BinNat.N.le (State.c_next_epoch c) (State.c_next_epoch c').
+Proof. exact counter_monotone_history. Qed.
+Check C15_counter_monotone_history :
+  forall (ops : list Exec.op) (W : World.world) (k : Keys.key) (c : State.rd_config),
+         List.Forall Lemmas_Canon.honest_op ops ->
+         List.Forall wallet_pays ops ->
+         Lemmas_Canon.typed_canonical W ->
+         Inv15 W ->
+         State.owner (World.get W k) = Keys.KRd ->
+         State.data (World.get W k) = State.DConfig c ->
+         let W' := List.fold_left (fun (W0 : World.world) (o : Exec.op) => fst (Exec.exec_op W0 o)) ops W in
+         exists c' : State.rd_config,
+           State.owner (World.get W' Keys.KRdConfig) = Keys.KRd /\
+           State.data (World.get W' Keys.KRdConfig) = State.DConfig c' /\
+           BinNat.N.le (State.c_next_epoch c) (State.c_next_epoch c').
+Print Assumptions C15_counter_monotone_history.
+
+(* per instruction of any program: the epoch counter and the creation timestamp stay, or move by exactly one creation (consecutive numbering, pacing by the grace period in force) *)
+Theorem C15_exec_data_counter :
+  forall (d : Exec.ixdata) (prog : Keys.key) (ms : list World.meta) (h : BinNums.N)
+           (sib : option World.sibling) (W W' : World.world) (k : Keys.key) (c : State.rd_config),
+         Inv15 W ->
+         Exec.exec_data prog d ms h sib W = Base.Ok W' ->
+         State.owner (World.get W k) = Keys.KRd ->
+         State.data (World.get W k) = State.DConfig c ->
+         exists c' : State.rd_config,
+           State.owner (World.get W' Keys.KRdConfig) = Keys.KRd /\
+           State.data (World.get W' Keys.KRdConfig) = State.DConfig c' /\
+           (counter_kept W W' c c' \/ counter_bumped W W' c c').
+Proof. exact exec_data_counter. Qed.
+Check C15_exec_data_counter :
+  forall (d : Exec.ixdata) (prog : Keys.key) (ms : list World.meta) (h : BinNums.N)
+           (sib : option World.sibling) (W W' : World.world) (k : Keys.key) (c : State.rd_config),
+         Inv15 W ->
+         Exec.exec_data prog d ms h sib W = Base.Ok W' ->
+         State.owner (World.get W k) = Keys.KRd ->
+         State.data (World.get W k) = State.DConfig c ->
+         exists c' : State.rd_config,
+           State.owner (World.get W' Keys.KRdConfig) = Keys.KRd /\
+           State.data (World.get W' Keys.KRdConfig) = State.DConfig c' /\
+           (counter_kept W W' c c' \/ counter_bumped W W' c c').
+Print Assumptions C15_exec_data_counter.
+
+Theorem C15_tx_counter :
+  forall (W : World.world) (t : Exec.tx) (W' : World.world) (ok : bool) (k : Keys.key)
+           (c : State.rd_config),
+         Inv15 W ->
+         Exec.exec_tx W t = (W', ok) ->
+         State.owner (World.get W k) = Keys.KRd ->
+         State.data (World.get W k) = State.DConfig c ->
+         exists c' : State.rd_config,
+           State.owner (World.get W' Keys.KRdConfig) = Keys.KRd /\
+           State.data (World.get W' Keys.KRdConfig) = State.DConfig c' /\
+           (counter_kept W W' c c' \/ tx_bumped W W' c c').
+Proof. exact tx_counter. Qed.
+Check C15_tx_counter :
+  forall (W : World.world) (t : Exec.tx) (W' : World.world) (ok : bool) (k : Keys.key)
+           (c : State.rd_config),
+         Inv15 W ->
+         Exec.exec_tx W t = (W', ok) ->
+         State.owner (World.get W k) = Keys.KRd ->
+         State.data (World.get W k) = State.DConfig c ->
+         exists c' : State.rd_config,
+           State.owner (World.get W' Keys.KRdConfig) = Keys.KRd /\
+           State.data (World.get W' Keys.KRdConfig) = State.DConfig c' /\
+           (counter_kept W W' c c' \/ tx_bumped W W' c c').
+Print Assumptions C15_tx_counter.
+
+Theorem C15_new_distribution_is_next :
+  forall (W : World.world) (t : Exec.tx) (W' : World.world) (ok : bool) (k : Keys.key)
+           (c : State.rd_config) (kd : Keys.key) (d : State.dist) (tl : list BinNums.N),
+         Inv15 W ->
+         Exec.exec_tx W t = (W', ok) ->
+         State.owner (World.get W k) = Keys.KRd ->
+         State.data (World.get W k) = State.DConfig c ->
+         Lemmas_Inv.dist_at W kd = None ->
+         Lemmas_Inv.dist_at W' kd = Some (d, tl) ->
+         kd = Keys.KRdDist (State.c_next_epoch c) /\
+         State.d_epoch d = State.c_next_epoch c /\
+         (exists c' : State.rd_config,
+            State.owner (World.get W' Keys.KRdConfig) = Keys.KRd /\
+            State.data (World.get W' Keys.KRdConfig) = State.DConfig c' /\
+            State.c_next_epoch c' = Base.sat_add Base.two64 (State.c_next_epoch c) (BinNums.Npos BinNums.xH) /\
+            State.c_last_init_ts c' = World.now W /\
+            (exists g : BinNums.N,
+               g <> BinNums.N0 /\
+               BinNat.N.le
+                 (BinNat.N.add (State.c_last_init_ts c)
+                    (BinNat.N.mul g
+                       (BinNums.Npos
+                          (BinNums.xO (BinNums.xO (BinNums.xI (BinNums.xI (BinNums.xI BinNums.xH))))))))
+                 (World.now W))).
+Proof. exact new_distribution_is_next. Qed.
+Check C15_new_distribution_is_next :
+  forall (W : World.world) (t : Exec.tx) (W' : World.world) (ok : bool) (k : Keys.key)
+           (c : State.rd_config) (kd : Keys.key) (d : State.dist) (tl : list BinNums.N),
+         Inv15 W ->
+         Exec.exec_tx W t = (W', ok) ->
+         State.owner (World.get W k) = Keys.KRd ->
+         State.data (World.get W k) = State.DConfig c ->
+         Lemmas_Inv.dist_at W kd = None ->
+         Lemmas_Inv.dist_at W' kd = Some (d, tl) ->
+         kd = Keys.KRdDist (State.c_next_epoch c) /\
+         State.d_epoch d = State.c_next_epoch c /\
+         (exists c' : State.rd_config,
+            State.owner (World.get W' Keys.KRdConfig) = Keys.KRd /\
+            State.data (World.get W' Keys.KRdConfig) = State.DConfig c' /\
+            State.c_next_epoch c' = Base.sat_add Base.two64 (State.c_next_epoch c) (BinNums.Npos BinNums.xH) /\
+            State.c_last_init_ts c' = World.now W /\
+            (exists g : BinNums.N,
+               g <> BinNums.N0 /\
+               BinNat.N.le
+                 (BinNat.N.add (State.c_last_init_ts c)
+                    (BinNat.N.mul g
+                       (BinNums.Npos
+                          (BinNums.xO (BinNums.xO (BinNums.xI (BinNums.xI (BinNums.xI BinNums.xH))))))))
+                 (World.now W))).
+Print Assumptions C15_new_distribution_is_next.
+
+Theorem C15_counter_starts_at_zero :
+  forall (cx : World.ctx) (W W' : World.world),
+         RD.rd_initialize_program cx W = Base.Ok W' ->
+         exists c : State.rd_config,
+           State.owner (World.get W' Keys.KRdConfig) = Keys.KRd /\
+           State.data (World.get W' Keys.KRdConfig) = State.DConfig c /\
+           State.c_next_epoch c = BinNums.N0 /\ State.c_last_init_ts c = BinNums.N0.
+Proof. exact counter_starts_at_zero. Qed.
+Check C15_counter_starts_at_zero :
+  forall (cx : World.ctx) (W W' : World.world),
+         RD.rd_initialize_program cx W = Base.Ok W' ->
+         exists c : State.rd_config,
+           State.owner (World.get W' Keys.KRdConfig) = Keys.KRd /\
+           State.data (World.get W' Keys.KRdConfig) = State.DConfig c /\
+           State.c_next_epoch c = BinNums.N0 /\ State.c_last_init_ts c = BinNums.N0.
+Print Assumptions C15_counter_starts_at_zero.
+
+Theorem C15_creation_spec_nonvacuous :
+  let c := the_config W_pre in
+         let rate := fst (the_burn c) in
+         let burn' := snd (the_burn c) in
+         let W' := W_proc in
+         Lemmas_Canon.CanonEx.all_ok Lemmas_Canon.CanonEx.ex_fix ops_pre = true /\
+         RD.rd_initialize_distribution cx_init1 W_pre = Base.Ok W' /\
+         World.now W_pre =
+         BinNums.Npos
+           (BinNums.xO
+              (BinNums.xO (BinNums.xO (BinNums.xI (BinNums.xO (BinNums.xO (BinNums.xI BinNums.xH))))))) /\
+         State.c_next_epoch c = BinNums.Npos BinNums.xH /\
+         State.c_last_init_ts c =
+         BinNums.Npos
+           (BinNums.xO (BinNums.xO (BinNums.xI (BinNums.xO (BinNums.xO (BinNums.xI BinNums.xH)))))) /\
+         State.c_init_grace_min c = BinNums.Npos BinNums.xH /\
+         State.c_calc_grace_min c = BinNums.Npos BinNums.xH /\
+         BurnRate.br_compute (State.c_burn c) = Some (rate, burn') /\
+         tok_amount W_pre jata =
+         BinNums.Npos
+           (BinNums.xI
+              (BinNums.xI
+                 (BinNums.xO
+                    (BinNums.xI (BinNums.xO (BinNums.xI (BinNums.xO (BinNums.xO (BinNums.xO BinNums.xH))))))))) /\
+         State.data (World.get W' (Keys.KRdDist (BinNums.Npos BinNums.xH))) =
+         State.DDist
+           (new_dist c
+              (BinNums.Npos
+                 (BinNums.xO
+                    (BinNums.xO (BinNums.xO (BinNums.xI (BinNums.xO (BinNums.xO (BinNums.xI BinNums.xH))))))))
+              rate
+              (BinNums.Npos
+                 (BinNums.xI
+                    (BinNums.xI
+                       (BinNums.xO
+                          (BinNums.xI
+                             (BinNums.xO (BinNums.xI (BinNums.xO (BinNums.xO (BinNums.xO BinNums.xH)))))))))))
+           nil /\
+         State.owner (World.get W' (Keys.KRdDist (BinNums.Npos BinNums.xH))) = Keys.KRd /\
+         State.d_epoch (the_dist W' (BinNums.Npos BinNums.xH)) = BinNums.Npos BinNums.xH /\
+         State.d_fees (the_dist W' (BinNums.Npos BinNums.xH)) = State.c_fees c /\
+         State.d_relay (the_dist W' (BinNums.Npos BinNums.xH)) =
+         BinNums.Npos
+           (BinNums.xO
+              (BinNums.xO
+                 (BinNums.xO
+                    (BinNums.xO
+                       (BinNums.xI
+                          (BinNums.xO
+                             (BinNums.xO
+                                (BinNums.xO
+                                   (BinNums.xI (BinNums.xI (BinNums.xI (BinNums.xO (BinNums.xO BinNums.xH))))))))))))) /\
+         State.d_cbr (the_dist W' (BinNums.Npos BinNums.xH)) = rate /\
+         State.d_calc_allowed_ts (the_dist W' (BinNums.Npos BinNums.xH)) =
+         BinNums.Npos
+           (BinNums.xO
+              (BinNums.xO
+                 (BinNums.xI (BinNums.xO (BinNums.xO (BinNums.xO (BinNums.xO (BinNums.xO BinNums.xH)))))))) /\
+         State.d_prepaid_2z (the_dist W' (BinNums.Npos BinNums.xH)) =
+         BinNums.Npos
+           (BinNums.xI
+              (BinNums.xI
+                 (BinNums.xO
+                    (BinNums.xI (BinNums.xO (BinNums.xI (BinNums.xO (BinNums.xO (BinNums.xO BinNums.xH))))))))) /\
+         State.data (World.get W' Keys.KRdConfig) =
+         State.DConfig
+           (new_config c
+              (BinNums.Npos
+                 (BinNums.xO
+                    (BinNums.xO (BinNums.xO (BinNums.xI (BinNums.xO (BinNums.xO (BinNums.xI BinNums.xH))))))))
+              burn') /\
+         State.c_next_epoch (the_config W') = BinNums.Npos (BinNums.xO BinNums.xH) /\
+         State.c_last_init_ts (the_config W') =
+         BinNums.Npos
+           (BinNums.xO
+              (BinNums.xO (BinNums.xO (BinNums.xI (BinNums.xO (BinNums.xO (BinNums.xI BinNums.xH))))))) /\
+         State.data (World.get W' (Keys.KTok2z (Keys.KRdDist (BinNums.Npos BinNums.xH)))) =
+         State.DToken
+           {|
+             State.t_mint := Keys.KMint;
+             State.t_owner := Keys.KRdDist (BinNums.Npos BinNums.xH);
+             State.t_amount :=
+               BinNums.Npos
+                 (BinNums.xI
+                    (BinNums.xI
+                       (BinNums.xO
+                          (BinNums.xI
+                             (BinNums.xO (BinNums.xI (BinNums.xO (BinNums.xO (BinNums.xO BinNums.xH)))))))))
+           |} /\
+         tok_amount W' jata = BinNums.N0 /\
+         World.get W' (Keys.KRdDist BinNums.N0) = World.get W_pre (Keys.KRdDist BinNums.N0) /\
+         World.get W' Keys.KRdJournal = World.get W_pre Keys.KRdJournal /\
+         World.get W' Keys.KMint = World.get W_pre Keys.KMint.
+Proof. exact rd_initialize_distribution_spec_nonvacuous. Qed.
+Check C15_creation_spec_nonvacuous :
+  let c := the_config W_pre in
+         let rate := fst (the_burn c) in
+         let burn' := snd (the_burn c) in
+         let W' := W_proc in
+         Lemmas_Canon.CanonEx.all_ok Lemmas_Canon.CanonEx.ex_fix ops_pre = true /\
+         RD.rd_initialize_distribution cx_init1 W_pre = Base.Ok W' /\
+         World.now W_pre =
+         BinNums.Npos
+           (BinNums.xO
+              (BinNums.xO (BinNums.xO (BinNums.xI (BinNums.xO (BinNums.xO (BinNums.xI BinNums.xH))))))) /\
+         State.c_next_epoch c = BinNums.Npos BinNums.xH /\
+         State.c_last_init_ts c =
+         BinNums.Npos
+           (BinNums.xO (BinNums.xO (BinNums.xI (BinNums.xO (BinNums.xO (BinNums.xI BinNums.xH)))))) /\
+         State.c_init_grace_min c = BinNums.Npos BinNums.xH /\
+         State.c_calc_grace_min c = BinNums.Npos BinNums.xH /\
+         BurnRate.br_compute (State.c_burn c) = Some (rate, burn') /\
+         tok_amount W_pre jata =
+         BinNums.Npos
+           (BinNums.xI
+              (BinNums.xI
+                 (BinNums.xO
+                    (BinNums.xI (BinNums.xO (BinNums.xI (BinNums.xO (BinNums.xO (BinNums.xO BinNums.xH))))))))) /\
+         State.data (World.get W' (Keys.KRdDist (BinNums.Npos BinNums.xH))) =
+         State.DDist
+           (new_dist c
+              (BinNums.Npos
+                 (BinNums.xO
+                    (BinNums.xO (BinNums.xO (BinNums.xI (BinNums.xO (BinNums.xO (BinNums.xI BinNums.xH))))))))
+              rate
+              (BinNums.Npos
+                 (BinNums.xI
+                    (BinNums.xI
+                       (BinNums.xO
+                          (BinNums.xI
+                             (BinNums.xO (BinNums.xI (BinNums.xO (BinNums.xO (BinNums.xO BinNums.xH)))))))))))
+           nil /\
+         State.owner (World.get W' (Keys.KRdDist (BinNums.Npos BinNums.xH))) = Keys.KRd /\
+         State.d_epoch (the_dist W' (BinNums.Npos BinNums.xH)) = BinNums.Npos BinNums.xH /\
+         State.d_fees (the_dist W' (BinNums.Npos BinNums.xH)) = State.c_fees c /\
+         State.d_relay (the_dist W' (BinNums.Npos BinNums.xH)) =
+         BinNums.Npos
+           (BinNums.xO
+              (BinNums.xO
+                 (BinNums.xO
+                    (BinNums.xO
+                       (BinNums.xI
+                          (BinNums.xO
+                             (BinNums.xO
+                                (BinNums.xO
+                                   (BinNums.xI (BinNums.xI (BinNums.xI (BinNums.xO (BinNums.xO BinNums.xH))))))))))))) /\
+         State.d_cbr (the_dist W' (BinNums.Npos BinNums.xH)) = rate /\
+         State.d_calc_allowed_ts (the_dist W' (BinNums.Npos BinNums.xH)) =
+         BinNums.Npos
+           (BinNums.xO
+              (BinNums.xO
+                 (BinNums.xI (BinNums.xO (BinNums.xO (BinNums.xO (BinNums.xO (BinNums.xO BinNums.xH)))))))) /\
+         State.d_prepaid_2z (the_dist W' (BinNums.Npos BinNums.xH)) =
+         BinNums.Npos
+           (BinNums.xI
+              (BinNums.xI
+                 (BinNums.xO
+                    (BinNums.xI (BinNums.xO (BinNums.xI (BinNums.xO (BinNums.xO (BinNums.xO BinNums.xH))))))))) /\
+         State.data (World.get W' Keys.KRdConfig) =
+         State.DConfig
+           (new_config c
+              (BinNums.Npos
+                 (BinNums.xO
+                    (BinNums.xO (BinNums.xO (BinNums.xI (BinNums.xO (BinNums.xO (BinNums.xI BinNums.xH))))))))
+              burn') /\
+         State.c_next_epoch (the_config W') = BinNums.Npos (BinNums.xO BinNums.xH) /\
+         State.c_last_init_ts (the_config W') =
+         BinNums.Npos
+           (BinNums.xO
+              (BinNums.xO (BinNums.xO (BinNums.xI (BinNums.xO (BinNums.xO (BinNums.xI BinNums.xH))))))) /\
+         State.data (World.get W' (Keys.KTok2z (Keys.KRdDist (BinNums.Npos BinNums.xH)))) =
+         State.DToken
+           {|
+             State.t_mint := Keys.KMint;
+             State.t_owner := Keys.KRdDist (BinNums.Npos BinNums.xH);
+             State.t_amount :=
+               BinNums.Npos
+                 (BinNums.xI
+                    (BinNums.xI
+                       (BinNums.xO
+                          (BinNums.xI
+                             (BinNums.xO (BinNums.xI (BinNums.xO (BinNums.xO (BinNums.xO BinNums.xH)))))))))
+           |} /\
+         tok_amount W' jata = BinNums.N0 /\
+         World.get W' (Keys.KRdDist BinNums.N0) = World.get W_pre (Keys.KRdDist BinNums.N0) /\
+         World.get W' Keys.KRdJournal = World.get W_pre Keys.KRdJournal /\
+         World.get W' Keys.KMint = World.get W_pre Keys.KMint.
+Print Assumptions C15_creation_spec_nonvacuous.
+
+Theorem C15_inv_nonvacuous :
+  Lemmas_Canon.CanonEx.all_ok Lemmas_Canon.CanonEx.ex_fix
+           (ops_pre ++ create (BinNums.Npos BinNums.xH) :: nil) = true /\
+         Inv15 W_pre /\
+         Inv15 W_post /\
+         Inv_C15 W_post /\
+         I15
+           {|
+             w_lo := BinNums.Npos (BinNums.xO BinNums.xH);
+             w_hi := BinNums.Npos (BinNums.xO BinNums.xH);
+             w_tlo :=
+               BinNums.Npos
+                 (BinNums.xO
+                    (BinNums.xO (BinNums.xO (BinNums.xI (BinNums.xO (BinNums.xO (BinNums.xI BinNums.xH)))))));
+             w_thi :=
+               BinNums.Npos
+                 (BinNums.xO
+                    (BinNums.xO (BinNums.xO (BinNums.xI (BinNums.xO (BinNums.xO (BinNums.xI BinNums.xH)))))));
+             w_ex := true
+           |} W_post /\
+         State.d_epoch (the_dist W_post BinNums.N0) = BinNums.N0 /\
+         State.d_epoch (the_dist W_post (BinNums.Npos BinNums.xH)) = BinNums.Npos BinNums.xH /\
+         State.c_next_epoch (the_config W_post) = BinNums.Npos (BinNums.xO BinNums.xH) /\
+         Lemmas_Inv.dist_at W_pre (Keys.KRdDist (BinNums.Npos BinNums.xH)) = None /\
+         Lemmas_Inv.dist_at W_post (Keys.KRdDist (BinNums.Npos BinNums.xH)) =
+         Some (the_dist W_post (BinNums.Npos BinNums.xH), nil).
+Proof. exact inv_C15_nonvacuous. Qed.
+Check C15_inv_nonvacuous :
+  Lemmas_Canon.CanonEx.all_ok Lemmas_Canon.CanonEx.ex_fix
+           (ops_pre ++ create (BinNums.Npos BinNums.xH) :: nil) = true /\
+         Inv15 W_pre /\
+         Inv15 W_post /\
+         Inv_C15 W_post /\
+         I15
+           {|
+             w_lo := BinNums.Npos (BinNums.xO BinNums.xH);
+             w_hi := BinNums.Npos (BinNums.xO BinNums.xH);
+             w_tlo :=
+               BinNums.Npos
+                 (BinNums.xO
+                    (BinNums.xO (BinNums.xO (BinNums.xI (BinNums.xO (BinNums.xO (BinNums.xI BinNums.xH)))))));
+             w_thi :=
+               BinNums.Npos
+                 (BinNums.xO
+                    (BinNums.xO (BinNums.xO (BinNums.xI (BinNums.xO (BinNums.xO (BinNums.xI BinNums.xH)))))));
+             w_ex := true
+           |} W_post /\
+         State.d_epoch (the_dist W_post BinNums.N0) = BinNums.N0 /\
+         State.d_epoch (the_dist W_post (BinNums.Npos BinNums.xH)) = BinNums.Npos BinNums.xH /\
+         State.c_next_epoch (the_config W_post) = BinNums.Npos (BinNums.xO BinNums.xH) /\
+         Lemmas_Inv.dist_at W_pre (Keys.KRdDist (BinNums.Npos BinNums.xH)) = None /\
+         Lemmas_Inv.dist_at W_post (Keys.KRdDist (BinNums.Npos BinNums.xH)) =
+         Some (the_dist W_post (BinNums.Npos BinNums.xH), nil).
+Print Assumptions C15_inv_nonvacuous.
+
+Theorem C15_tx_counter_nonvacuous :
+  exists (t : Exec.tx) (W' : World.world),
+           create (BinNums.Npos BinNums.xH) = Exec.OTx t /\
+           Exec.exec_tx W_pre t = (W', true) /\
+           tx_bumped W_pre W' (the_config W_pre) (the_config W') /\
+           BinNat.N.le
+             (BinNat.N.add (State.c_last_init_ts (the_config W_pre))
+                (BinNat.N.mul (State.c_init_grace_min (the_config W_pre))
+                   (BinNums.Npos (BinNums.xO (BinNums.xO (BinNums.xI (BinNums.xI (BinNums.xI BinNums.xH))))))))
+             (World.now W_pre).
+Proof. exact tx_counter_nonvacuous. Qed.
+Check C15_tx_counter_nonvacuous :
+  exists (t : Exec.tx) (W' : World.world),
+           create (BinNums.Npos BinNums.xH) = Exec.OTx t /\
+           Exec.exec_tx W_pre t = (W', true) /\
+           tx_bumped W_pre W' (the_config W_pre) (the_config W') /\
+           BinNat.N.le
+             (BinNat.N.add (State.c_last_init_ts (the_config W_pre))
+                (BinNat.N.mul (State.c_init_grace_min (the_config W_pre))
+                   (BinNums.Npos (BinNums.xO (BinNums.xO (BinNums.xI (BinNums.xI (BinNums.xI BinNums.xH))))))))
+             (World.now W_pre).
+Print Assumptions C15_tx_counter_nonvacuous.
+
+Theorem C15_creation_too_early_refused :
+  snd
+           (Exec.exec_op
+              (fst
+                 (Exec.exec_op W_pre
+                    (Exec.OSetClock
+                       (BinNums.Npos
+                          (BinNums.xI
+                             (BinNums.xI
+                                (BinNums.xI (BinNums.xI (BinNums.xI (BinNums.xO (BinNums.xO BinNums.xH)))))))))))
+              (create (BinNums.Npos BinNums.xH))) = false /\
+         snd
+           (Exec.exec_op
+              (fst
+                 (Exec.exec_op W_pre
+                    (Exec.OSetClock
+                       (BinNums.Npos
+                          (BinNums.xO
+                             (BinNums.xO
+                                (BinNums.xO (BinNums.xO (BinNums.xO (BinNums.xI (BinNums.xO BinNums.xH)))))))))))
+              (create (BinNums.Npos BinNums.xH))) = true /\
+         snd
+           (Exec.exec_op W_pre
+              (Lemmas_Canon.CanonEx.otx
+                 (Keys.KUser (BinNums.Npos (BinNums.xO BinNums.xH))
+                  :: Keys.KUser
+                       (BinNums.Npos
+                          (BinNums.xO
+                             (BinNums.xO (BinNums.xI (BinNums.xO (BinNums.xO (BinNums.xI BinNums.xH)))))))
+                     :: nil)
+                 (Lemmas_Canon.CanonEx.rdi RD.RInitializeDistribution (m_init (BinNums.Npos BinNums.xH))
+                  :: Lemmas_Canon.CanonEx.rdi RD.RInitializeDistribution
+                       (m_init (BinNums.Npos (BinNums.xO BinNums.xH))) :: nil))) = false /\
+         snd (Exec.exec_op W_post (create (BinNums.Npos BinNums.xH))) = false /\
+         snd (Exec.exec_op W_post (create (BinNums.Npos (BinNums.xO BinNums.xH)))) = false /\
+         snd
+           (Exec.exec_op
+              (fst
+                 (Exec.exec_op W_post
+                    (Exec.OSetClock
+                       (BinNums.Npos
+                          (BinNums.xO
+                             (BinNums.xO
+                                (BinNums.xI
+                                   (BinNums.xO (BinNums.xO (BinNums.xO (BinNums.xO (BinNums.xO BinNums.xH))))))))))))
+              (create (BinNums.Npos (BinNums.xO BinNums.xH)))) = true.
+Proof. exact creation_too_early_refused. Qed.
+Check C15_creation_too_early_refused :
+  snd
+           (Exec.exec_op
+              (fst
+                 (Exec.exec_op W_pre
+                    (Exec.OSetClock
+                       (BinNums.Npos
+                          (BinNums.xI
+                             (BinNums.xI
+                                (BinNums.xI (BinNums.xI (BinNums.xI (BinNums.xO (BinNums.xO BinNums.xH)))))))))))
+              (create (BinNums.Npos BinNums.xH))) = false /\
+         snd
+           (Exec.exec_op
+              (fst
+                 (Exec.exec_op W_pre
+                    (Exec.OSetClock
+                       (BinNums.Npos
+                          (BinNums.xO
+                             (BinNums.xO
+                                (BinNums.xO (BinNums.xO (BinNums.xO (BinNums.xI (BinNums.xO BinNums.xH)))))))))))
+              (create (BinNums.Npos BinNums.xH))) = true /\
+         snd
+           (Exec.exec_op W_pre
+              (Lemmas_Canon.CanonEx.otx
+                 (Keys.KUser (BinNums.Npos (BinNums.xO BinNums.xH))
+                  :: Keys.KUser
+                       (BinNums.Npos
+                          (BinNums.xO
+                             (BinNums.xO (BinNums.xI (BinNums.xO (BinNums.xO (BinNums.xI BinNums.xH)))))))
+                     :: nil)
+                 (Lemmas_Canon.CanonEx.rdi RD.RInitializeDistribution (m_init (BinNums.Npos BinNums.xH))
+                  :: Lemmas_Canon.CanonEx.rdi RD.RInitializeDistribution
+                       (m_init (BinNums.Npos (BinNums.xO BinNums.xH))) :: nil))) = false /\
+         snd (Exec.exec_op W_post (create (BinNums.Npos BinNums.xH))) = false /\
+         snd (Exec.exec_op W_post (create (BinNums.Npos (BinNums.xO BinNums.xH)))) = false /\
+         snd
+           (Exec.exec_op
+              (fst
+                 (Exec.exec_op W_post
+                    (Exec.OSetClock
+                       (BinNums.Npos
+                          (BinNums.xO
+                             (BinNums.xO
+                                (BinNums.xI
+                                   (BinNums.xO (BinNums.xO (BinNums.xO (BinNums.xO (BinNums.xO BinNums.xH))))))))))))
+              (create (BinNums.Npos (BinNums.xO BinNums.xH)))) = true.
+Print Assumptions C15_creation_too_early_refused.
+
+Theorem C15_strict_form_refuted_at_u64_max :
+  ~
+         (forall (W : World.world) (dk ck : Keys.key) (d : State.dist) (t : list BinNums.N)
+            (c : State.rd_config),
+          Inv15 W ->
+          State.owner (World.get W dk) = Keys.KRd ->
+          State.data (World.get W dk) = State.DDist d t ->
+          State.owner (World.get W ck) = Keys.KRd ->
+          State.data (World.get W ck) = State.DConfig c ->
+          BinNat.N.lt (State.d_epoch d) (State.c_next_epoch c)).
+Proof. exact epochs_strictly_below_next_refuted. Qed.
+Check C15_strict_form_refuted_at_u64_max :
+  ~
+         (forall (W : World.world) (dk ck : Keys.key) (d : State.dist) (t : list BinNums.N)
+            (c : State.rd_config),
+          Inv15 W ->
+          State.owner (World.get W dk) = Keys.KRd ->
+          State.data (World.get W dk) = State.DDist d t ->
+          State.owner (World.get W ck) = Keys.KRd ->
+          State.data (World.get W ck) = State.DConfig c ->
+          BinNat.N.lt (State.d_epoch d) (State.c_next_epoch c)).
+Print Assumptions C15_strict_form_refuted_at_u64_max.
